@@ -43,6 +43,27 @@ reg("C01",
     "segment traversed (derivation in DESIGN.md section 3).",
     "DESIGN.md section 4, C01")
 
+reg("C12",
+    "Hypothesis-generated extreme tempo maps and multi-track charts checked against a pure order relation (metamorphic: tick order => time order)",
+    "Exploration by generated-input search: tempo maps biased to extreme accelerations, resolution 1 and "
+    "10^6 and sub-microsecond ticks; full sweeps T-3..T+3 around every tempo change, runs of 40 "
+    "consecutive ticks and random ticks are queried through both public queries; whole charts with "
+    ">= 2 tracks merge every (tick, timestamp) pair of every event kind plus the query. Oracle is the "
+    "order relation itself (non-decreasing, equal ticks equal times, end >= start, strict when a tick "
+    "lasts >= 2 us). Sampling of the map space, complete only for the tick sweeps of each sampled map.",
+    "No arithmetic model is trusted here; only the comparison of reported values. Times < 10^6 s.",
+    "DESIGN.md section 4, C12")
+
+reg("C11",
+    "per-map complete enumeration of hints x generated ticks, Hypothesis-drawn permutations of section bodies, and a rule-based state machine over event histories, against a brute-force governing-index oracle and the un-hinted query",
+    "Exploration by generated-input search: for every generated tempo map all hints 0..len are tried "
+    "for each interesting tick (complete per map) against a brute-force governing index; whole charts "
+    "are parsed with sorted, partially sorted and shuffled bodies and a stateful machine grows "
+    "sections event by event (the hint used for an event is the history before it); every stored "
+    "timestamp must equal the un-hinted query or the parse must raise ValueError.",
+    "The un-hinted query itself is checked against the exact model in C01; here it is the reference.",
+    "DESIGN.md section 4, C11")
+
 
 def build():
     checks = []
